@@ -20,6 +20,9 @@ CHECKS = {
     'C04': ('model_checking', 'real Dispatcher + SecNode + RequestHandler loop over a fake-driver module: request sequences (<= 3) with symbolic payloads, '
             'symbolic datatype limits, dynamic limits moved by earlier symbolic requests and a symbolic check-hook threshold; the oracle compares driver log, '
             'cache snapshot, update stream and reply class', '5/C04'),
+    'C05': ('model_checking', 'sequential histories (<= 3/4 operations chosen by a symbolic selector) through the real announceUpdate funnel, read/write '
+            'wrappers and dispatcher fan-out under a virtual clock with symbolic instants and a symbolic omit window; oracle: folding the received '
+            'messages reproduces the cache after every step, and the cache reflects the outcome of every operation', '5/C05'),
 }
 NOT_YET = 'check not built yet in this round (planned per DESIGN.md section 5); not claimed until its harness runs clean'
 NOT_APPLICABLE = {}
